@@ -52,6 +52,11 @@ func (pc *PairCall) script(jg *JGen) *CallScript {
 			cs.Steps = append(cs.Steps, Step{Op: "reply", Cont: i < len(pc.Replies)-1, NoPar: true})
 			continue
 		}
+		if w == "<nil-raw>" || w == "<nilptr-raw>" {
+			// the handler passes a nil json.RawMessage / *json.RawMessage (a forwarded reply that had no parameters)
+			cs.Steps = append(cs.Steps, Step{Op: "reply", Cont: i < len(pc.Replies)-1, RawKind: map[string]string{"<nil-raw>": "nil", "<nilptr-raw>": "nilptr"}[w]})
+			continue
+		}
 		if pc.ExactPad > 0 && i == len(pc.Replies)-1 {
 			raw = json.RawMessage(`{"x":"` + strings.Repeat("x", pc.ExactPad) + `"}`)
 		} else if pc.BigReply > 0 && i == len(pc.Replies)-1 {
@@ -553,8 +558,13 @@ func genPairCalls(rng *rand.Rand, jg *JGen, tag string, n int, depth int) []Pair
 		}
 		// now and then a reply without a parameters member at all (what Reply(ctx, nil) puts on the wire), at any place of a sequence
 		for j := range pc.Replies {
-			if rng.Intn(8) == 0 {
+			switch rng.Intn(16) {
+			case 0, 1:
 				pc.Replies[j] = ""
+			case 2:
+				pc.Replies[j] = "<nil-raw>"
+			case 3:
+				pc.Replies[j] = "<nilptr-raw>"
 			}
 		}
 		out = append(out, pc)
@@ -879,7 +889,7 @@ func runC02(r *fw.Run) {
 func init() {
 	fw.Register(&fw.Engine{
 		ID: "C03", Level: "exploration",
-		Rule: "a case = one client connection making 1..5 calls through a recording proxy to a real Service on one of the four transports (filesystem unix socket, abstract unix socket, TCP, bridge subprocess via NewBridge) in one of three call styles (Call; Send+receive; Send with more + a sequence of 1,2,3,5,9 or 17 replies). Parameters are generated JSON objects (integers beyond 2^53 and 2^64, exponents, -0, 1.0e+2, empty objects/arrays, null members, unicode incl. NUL escapes, surrogate pairs, U+2028) passed as json.RawMessage, as map[string]interface{} with json.Number, or as a typed struct; each reply's parameters are generated the same way; one reply in eight has no parameters member at all (Reply(ctx, nil)), at any place of a sequence. Oracle: what the handler read (GetParameters into json.RawMessage) is number-exactly JSON-equal to what the client passed; what receive/Call yielded (into *json.RawMessage) is number-exactly JSON-equal to what the handler replied, for every reply of a more-sequence, with Continues set on all but the last. The proxy forwards unchanged, byte-wise, or in random pieces. distinct by hash of transport + calls; all cases non-trivial (>= 1 generated document each way). Also per transport: a reply followed by the service closing the connection, read late by the client; two calls in flight (Send, Send, receive..., receive...); 2-5 calls whose Sends and receives interleave in seeded orders (S0 S1 R0 S2 R1 ...) while the proxy coalesces everything the service sends within 3 ms into one segment; a monitor-style handler that sends continues-replies and then waits for an event (the client must get them while it waits); Connection.Close bounded at 15 s.",
+		Rule: "a case = one client connection making 1..5 calls through a recording proxy to a real Service on one of the four transports (filesystem unix socket, abstract unix socket, TCP, bridge subprocess via NewBridge) in one of three call styles (Call; Send+receive; Send with more + a sequence of 1,2,3,5,9 or 17 replies). Parameters are generated JSON objects (integers beyond 2^53 and 2^64, exponents, -0, 1.0e+2, empty objects/arrays, null members, unicode incl. NUL escapes, surrogate pairs, U+2028) passed as json.RawMessage, as map[string]interface{} with json.Number, or as a typed struct; each reply's parameters are generated the same way; one reply in eight has no parameters member at all (Reply(ctx, nil)) and one in eight is a nil json.RawMessage or *json.RawMessage, at any place of a sequence. Oracle: what the handler read (GetParameters into json.RawMessage) is number-exactly JSON-equal to what the client passed; what receive/Call yielded (into *json.RawMessage) is number-exactly JSON-equal to what the handler replied, for every reply of a more-sequence, with Continues set on all but the last. The proxy forwards unchanged, byte-wise, or in random pieces. distinct by hash of transport + calls; all cases non-trivial (>= 1 generated document each way). Also per transport: a reply followed by the service closing the connection, read late by the client; two calls in flight (Send, Send, receive..., receive...); 2-5 calls whose Sends and receives interleave in seeded orders (S0 S1 R0 S2 R1 ...) while the proxy coalesces everything the service sends within 3 ms into one segment; a monitor-style handler that sends continues-replies and then waits for an event (the client must get them while it waits); Connection.Close bounded at 15 s.",
 		Assumptions: []string{"number fidelity is asserted for callers that receive into json.RawMessage (decoding into interface{} is the caller's own loss)", "an absent parameters member equals {}"},
 		Run:         runC03, Replay: replayPair("C03", false), CrashIsViolation: true, MinEvals: 50,
 		QuickTimeout: 15 * time.Minute, ThoroughTimeout: 60 * time.Minute,
